@@ -3,6 +3,15 @@
 import json, subprocess
 
 CHECKS = {
+ "C10": ("exploration", "metamorphic testing over generated rule sequences and the shipped example project: staged == at-once == regrouped",
+         "For generated rule sequences and for every .rsca file of the shipped Indo-European project, the result of running all rules at once is compared (public API, rendered strings) with running a prefix, re-parsing its rendered output and running the rest — for every split point — and with the same rules regrouped with empty groups interleaved.",
+         "Only splits whose intermediate text has no � are judged. A divergence is attributed to a listed C08/C09 finding only after the intermediate word (fetched structurally for the diagnosis) has been shown to be ill-formed in a listed way or to contain a segment that does not round-trip on its own; every other divergence alarms.", "DESIGN.md §5 C10"),
+ "C11": ("exploration", "metamorphic testing: list runs vs singleton runs under permutation, sublists, duplication and phrases; first-error rule",
+         "Each word of a generated list is run alone; the list as given, reversed, rotated, thinned and with a duplicate must give exactly the singleton results in order (public API), a two-word phrase must give the space-joined singleton results, and when some word fails the list must fail with the error of the first failing word in phase order (word parsing before rule parsing before application).",
+         "Errors are compared by variant (plus the word text for word syntax errors), since positions in the word list legitimately differ. Rule syntax errors raised only when a rule is split into sub-rules (UnbalancedRule*, InsertDelete/Metath) are application-phase errors.", "DESIGN.md §5 C11"),
+ "C16": ("exploration", "random rule-group histories: trace_changes / get_trace_string vs independently computed per-group states and run",
+         "For generated histories of named rule groups (including empty, comment-only and non-firing groups) and phrases, the changes reported by trace_changes must be exactly the groups after which the independently computed structural state differs from the previous one, each with that state; the last state must render to what run returns; get_trace_string must print the same sequence; all three entry points agree on Ok/Err.",
+         "Trusted: the structural hook used to compute the per-group states independently (words outer, groups inner — the run loop's order, not the trace loop's).", "DESIGN.md §5 C16"),
  "C07": ("exploration", "generated restating rules (identity oracle) + exhaustive alpha identities + neighbour model for variables in contexts",
          "Restating rules `X1=1..Xk=k > 1..k` over every bindable element kind with full-grammar environments must leave generated words structurally unchanged; `[αF] > [αF]` / `[-αF] > [-αF]` for every feature, node and suprasegmental, and `%:[αstress] > [αstress]`, are enumerated over all bases, base+1 diacritic and the 36 suprasegmental states; `A > B / X=1 _ 1` and `A > B / %=1 _ 1` are compared with a neighbour model over all small words.",
          "Trusted: the structural hook, the neighbour model (10 lines). Only Ok results are judged in the random part. The secondary-stress alpha collapse is a listed known finding.", "DESIGN.md §5 C07"),
